@@ -1,10 +1,12 @@
 HARNESSES = {
+    'ArcListing': dict(split={'width': 3, 'rel': 2}),
     'Listing': dict(split={'op': 16}, quick=dict(params={'L': 5}), thorough=dict(params={'L': 7})),
     'SameVerdict': dict(split={'len': 8}, quick=dict(params={'W': 7}), thorough=dict(params={'W': 10}, split={'len': 11})),
 }
 
 BOUNDS = {
+    'ArcListing': 'StartPath, one arc (absolute or relative) with arbitrary 1-byte operands and a flags natural of any width, end path',
     'Listing': 'magic, empty metadata, L arbitrary instruction bytes (quick 5, thorough 7)',
     'SameVerdict': 'fully arbitrary inputs of 0..W bytes (quick 7, thorough 10)',
 }
-OUTSIDE = 'the text fmt produces from the values (values are compared, not text); operand lines of arcs (angle and flags are printed in derived forms); listings of metadata chunks beyond W bytes'
+OUTSIDE = 'the text fmt produces from the values (values are compared, not text); listings of metadata chunks beyond W bytes'
